@@ -16,7 +16,7 @@ import JSV.Proofs.MshFacts
 import JSV.Proofs.MshCloneOk
 import JSV.Model.Unmarshal
 import JSV.Proofs.IsoValid
-import JSV.Proofs.ResIso4
+import JSV.Proofs.ResIsoClone
 namespace JSV.C20
 open JSV Go
 
@@ -297,6 +297,47 @@ theorem clone_original_resolves_same (B d : Nat) (st : Store) (root c : NodeId) 
     (r₁ := root) (r₂ := root) ⟨d, hsim⟩ fuel base h₁ h₂
   exact ⟨e1, e2, fun reMatch vfuel j => (e3 reMatch vfuel j).symm⟩
 
+/-- the clone of a tree is a tree: if checkStructure accepts `root`, it accepts the clone of `root` (with some amount
+    of fuel), and every schema it registers for the clone is a new node.  (`CloneSchemas` allocates one fresh node per
+    visit, so the clone of a DAG is a tree too; the converse fails — see `clone_of_dag_resolves` below.) -/
+theorem clone_is_tree (st : Store) (root c : NodeId) (st' : Store) (f : Nat) (fresh : List (NodeId × Go.Info))
+    (hcs : Go.checkStructure st f [(root, "")] [] = .ok fresh) (h : Go.clone st root = .ok (c, st')) :
+    ∃ f' fresh', Go.checkStructure st' f' [(c, "")] [] = .ok fresh' ∧
+      ∀ k, k ∈ fresh'.map (·.1) → st.size ≤ k ∧ k < st'.size :=
+  Go.RIso.clone_checkStructure st root c st' "" f fresh hcs h
+
+/-- **`clone_validates_same`** (C20, validation behaviour, no carve-out on references).  Let `Resolve` of `root` return
+    normally (self-contained resolution — no Loader, or a Loader that hands out no document, `Go.RIso.NoDocs`; the store
+    leaves room for the copies below the model's nil id 10^9).  Then `root.CloneSchemas()` succeeds, `Resolve` of the clone
+    — same options, same base URI — returns normally as well, with the same draft and the same Loader log, and every
+    instance gets from the clone, with every amount of fuel, exactly the Spec result it gets from the original
+    (undefined / invalid / valid with the same evaluated properties and items): whatever `$ref`, `$dynamicRef`, `$id`,
+    `$anchor`, `$dynamicAnchor`, `$defs` the tree contains.
+    Proof: the clone is a tree (`clone_is_tree`), it is a copy of the original node by node (`Go.cloneFuel_sim`),
+    Resolve commutes with the renaming of node ids between two such trees (`Go.RIso.resolve_rel`, `resolve_trees`), and
+    validity is invariant under a renaming of node ids along related tables (`Iso.evalFuel_sim`). -/
+theorem clone_validates_same (st : Store) (root : NodeId) (env : Go.Env) (hnd : Go.RIso.NoDocs env)
+    (hroom : st.size + Go.cloneCount st (st.size + 1) root ≤ 1000000000)
+    (fuel : Nat) (base : String) (rs : Go.Resolved)
+    (h₁ : Go.resolve { env with st := st } fuel root base = .ok rs) :
+    ∃ c st' rs', Go.clone st root = .ok (c, st') ∧
+      Go.resolve { env with st := st' } fuel c base = .ok rs' ∧ rs.draft = rs'.draft ∧ rs.log = rs'.log ∧
+      ∀ (reMatch : String → String → Bool) (vfuel : Nat) (j : Json),
+        Spec.evalFuel (Go.RIso.specOf st' rs' reMatch) vfuel [] c j =
+          Spec.evalFuel (Go.RIso.specOf st rs reMatch) vfuel [] root j := by
+  obtain ⟨fresh, hcs⟩ := Go.RIso.resolve_ok_cs { env with st := st } fuel root base rs h₁
+  have hg : ∀ B, Go.Good B st st.size root := fun B => Go.good_of_checkStructure B st _ root fresh hcs
+  obtain ⟨c, st', h, hsz, -⟩ := clone_total (st.size + Go.cloneCount st (st.size + 1) root) st.size st root
+    (hg _) (Nat.le_succ _) (Nat.le_refl _)
+  obtain ⟨f', fresh', hcs', -⟩ := clone_is_tree st root c st' _ fresh hcs h
+  have hB : st'.size ≤ st'.size := Nat.le_refl _
+  have hBn : st'.size ≤ 1000000000 := by rw [hsz]; exact hroom
+  obtain ⟨R, rs', h₂, -, -, -, -⟩ := clone_resolves_same st'.size st.size st root c st' (hg _) h hB hBn env hnd fuel base
+    rs h₁ f' fresh' hcs'
+  obtain ⟨e1, e2, e3⟩ := clone_validates_same_resolved st'.size st.size st root c st' (hg _) h hB hBn env hnd fuel base
+    rs rs' h₁ h₂
+  exact ⟨c, st', rs', h, h₂, e1, e2, e3⟩
+
 /-- the 23 fields cloneStep rewrites are exactly the Schema-typed fields of the Go struct: every field
     whose Go type mentions `Schema` has type `*Schema`, `[]*Schema` or `map[string]*Schema`; there are 23
     of them, as many as `Node.childFields` (13 + 5 + 5 by kind); and the JSON names agree -/
@@ -413,6 +454,81 @@ def exSpecEnv (st : Store) : Spec.Env :=
 example : Spec.valid (exSpecEnv exStore) 3 0 (.str "x") = some true := by decide
 example : Spec.valid (exSpecEnv exStore) 3 0 (.str "") = some false := by decide
 example : Spec.valid (exSpecEnv exStore) 3 0 (.obj []) = some false := by decide
+
+/-! ### `clone_validates_same` is not vacuous: a tree WITH `$ref` (by pointer and by `$anchor`), `$dynamicRef`,
+  `$dynamicAnchor`, `$id` -/
+
+def exRefTree : Store := #[
+  { id := "http://a/root.json", type := "object", ref := "#/$defs/len", dynamicRef := "#d", allOf := some [4],
+    properties := some [("a", 1)], defs := some [("len", 2), ("pos", 3)], required := some ["a"] },   -- 0
+  { type := "string" },                                                                              -- 1
+  { minProperties := some 1, dynamicAnchor := "d" },                                                  -- 2
+  { anchor := "pos", maxProperties := some 2 },                                                       -- 3
+  { ref := "#pos" }]                                                                                  -- 4
+def exRefEnv : Go.Env := { st := exRefTree, reOk := fun _ => true, loader := none }
+
+theorem exRefEnv_noDocs : Go.RIso.NoDocs exRefEnv := fun _ _ _ h => nomatch h
+
+/-- what Resolve records for the original: (schema, `$ref` target, `$dynamicRef` target), and the anchors of the root
+    resource -/
+example : ((Go.resolve exRefEnv 1 0 "").bind fun rs => .ok (rs.infos.map fun (e : NodeId × Go.Info) =>
+      (e.1, e.2.resolvedRef, e.2.resolvedDynamicRef))) =
+    .ok [(0, some 2, some 2), (2, none, none), (3, none, none), (4, some 3, none), (1, none, none)] := by
+  decide +kernel
+example : ((Go.resolve exRefEnv 1 0 "").bind fun rs => .ok (((Go.lookupNat 0 rs.infos).map Go.Info.anchors).getD [] |>.map
+      fun (a : String × Go.AnchorInfo) => (a.1, a.2.schema, a.2.dynamic))) =
+    .ok [("d", 2, true), ("pos", 3, false)] := by
+  decide +kernel
+
+/-- … and for the clone (root 9, copies 5 … 8), resolved on its own: the same tables up to the renaming -/
+example : (match Go.clone exRefTree 0 with
+    | .ok (c, st') => (Go.resolve { exRefEnv with st := st' } 1 c "").bind fun rs =>
+        .ok (rs.infos.map fun (e : NodeId × Go.Info) => (e.1, e.2.resolvedRef, e.2.resolvedDynamicRef))
+    | _ => .err) =
+    .ok [(9, some 5, some 5), (5, none, none), (6, none, none), (7, some 6, none), (8, none, none)] := by
+  decide +kernel
+example : (match Go.clone exRefTree 0 with
+    | .ok (c, st') => (Go.resolve { exRefEnv with st := st' } 1 c "").bind fun rs =>
+        .ok (((Go.lookupNat c rs.infos).map Go.Info.anchors).getD [] |>.map
+          fun (a : String × Go.AnchorInfo) => (a.1, a.2.schema, a.2.dynamic))
+    | _ => .err) =
+    .ok [("d", 5, true), ("pos", 6, false)] := by
+  decide +kernel
+
+/-- `clone_validates_same` applied: the clone resolves, and validates every instance like the original -/
+example : ∃ c st' rs rs', Go.clone exRefTree 0 = .ok (c, st') ∧ Go.resolve exRefEnv 1 0 "" = .ok rs ∧
+    Go.resolve { exRefEnv with st := st' } 1 c "" = .ok rs' ∧
+    ∀ (reMatch : String → String → Bool) (vfuel : Nat) (j : Json),
+      Spec.evalFuel (Go.RIso.specOf st' rs' reMatch) vfuel [] c j =
+        Spec.evalFuel (Go.RIso.specOf exRefTree rs reMatch) vfuel [] 0 j := by
+  have hok : (Go.resolve exRefEnv 1 0 "").isOk = true := by decide +kernel
+  cases hr : Go.resolve exRefEnv 1 0 "" with
+  | ok rs =>
+    obtain ⟨c, st', rs', h, h₂, -, -, e⟩ :=
+      clone_validates_same exRefTree 0 exRefEnv exRefEnv_noDocs (by decide) 1 "" rs hr
+    exact ⟨c, st', rs, rs', h, rfl, h₂, e⟩
+  | fuel => rw [hr] at hok; cases hok
+  | panic => rw [hr] at hok; cases hok
+  | err => rw [hr] at hok; cases hok
+
+/-- … and these results are defined, use the references, and are not all the same: `{"a":"x"}` is valid; three
+    properties violate `maxProperties` behind `allOf → $ref: "#pos"`; a number under "a" violates `properties` -/
+example : (match Go.resolve exRefEnv 1 0 "" with
+    | .ok rs =>
+      [Spec.valid (Go.RIso.specOf exRefTree rs fun _ _ => false) 4 0 (.obj [("a", .str "x")]),
+       Spec.valid (Go.RIso.specOf exRefTree rs fun _ _ => false) 4 0 (.obj [("a", .str "x"), ("b", .null), ("c", .null)]),
+       Spec.valid (Go.RIso.specOf exRefTree rs fun _ _ => false) 4 0 (.obj [("a", .num 1)])]
+    | _ => []) = [some true, some false, some false] := by
+  decide +kernel
+
+/-- `clone_of_dag_resolves`: the converse direction fails, and must: a DAG (schema 1 is shared) is refused by Resolve
+    ("do not form a tree"), its clone is a tree and resolves -/
+example : (Go.resolve { exRefEnv with st := #[{ allOf := some [1, 1] }, { type := "string" }] } 1 0 "").verdict =
+      some false ∧
+    (match Go.clone #[{ allOf := some [1, 1] }, { type := "string" }] 0 with
+      | .ok (c, st') => (Go.resolve { exRefEnv with st := st' } 1 c "").isOk
+      | _ => false) = true := by
+  constructor <;> decide +kernel
 
 /-- why `st'.size ≤ B` is assumed: a "nil" id that the clone's own allocations reach stops being nil.
     Here node 0 has `not := some 1` with 1 dangling (nil); the clone is allocated at id 1 and its `not`
